@@ -41,10 +41,20 @@ def c06_runs(tier):
     # budgets add up to about the tier budget, so that on an overloaded machine every run is time-boxed (reported as not
     # exhaustive) instead of the tail of the matrix being skipped; on an idle machine most runs need a tenth of theirs
     add(0, 'TCLFPB', ANY, 0, 0, budget=10)
+    # a set filled by T0 while every worker is parked (kHeavy: the leaves go to the steal ring of a claimed sleeper),
+    # waited for from inside a task of an outer set
+    for o in ('C', 'T', 'L'):
+        for ic in ('h', 'l'):
+            runs.append(McRun(BIN, 'nest_pre', dict(n=1, o=o, ic=ic, k=1 if tier == 'quick' else 2), bound=1 if tier == 'quick' else 2, budget=20 if tier == 'quick' else 60))
+    runs.append(McRun(BIN, 'nest_pre', dict(n=2, o='C', ic='h', k=2), bound=1, budget=30 if tier == 'quick' else 120))
     if tier == 'quick':
         # one worker, one outer task (outer size N): every inner kind x the 12 variants
         for kind in KINDS:
             add(1, kind, ANY, 0, 1, budget=15)
+        # two deviations on the smallest nestings (a helping waiter racing a producer over the central-queue hint needs
+        # both): one worker, one outer task, lightweight / heavy sets on either level
+        for kind, o in (('L', 'L'), ('L', 'C'), ('C', 'L'), ('C', 'C'), ('T', 'T'), ('F', 'C')):
+            add(1, kind, o, 1, 2, budget=20)
         # two workers with N and N+1 outer tasks on the heavy (steal-ring) outer set, T0 waiting and T0 idle (time-boxed)
         for prog in ('CC', 'CF', 'CCC'):
             add(2, prog, 'C', 1, 1, t0=ANY, budget=12)
@@ -82,10 +92,10 @@ def c06_runs(tier):
 
 reg('C06', level='model_checking', runs=c06_runs, quick_budget_s=240, thorough_budget_s=1300,
     technique='stateless model checking of real pools running acyclic two-level nesting programs: every worker ends up inside a wait while T0 either waits on the outer set or stays idle; all interleavings up to a deviation bound with free futex-waiter picks; progress oracle',
-    level_text='Programs from the grammar outer set in {TaskSet, ConcurrentTaskSet heavy, ConcurrentTaskSet lightweight} x outer tasks each creating one inner construct from {TaskSet, ConcurrentTaskSet heavy/lightweight, async futures, waiting parallel_for, scheduleBulk+wait} with 1-2 leaves and waiting on it, outer and/or inner submissions optionally forced to the queue, T0 waiting on the outer set (a helper) or idle until the outer tasks ended (the pool on its own); pools of 1 and 2 workers with N and N+1 outer tasks (plus a zero-thread pool); every interleaving with <=1 deviation, futex waiter picks free, backstop timeouts allowed. Quick: N=1 every single kind x 12 (outer kind, forcing, T0 role) variants, every pair containing a heavy set or a future; N=2 three shapes (time-boxed). Thorough: the whole grammar for N=1 with 1-2 outer tasks, bound 2 on the smallest N=1 shapes, all pairs over {T,C,L,F} with T0 waiting and idle, and ten further shapes (three outer tasks, parallel_for / bulk inners, forced inners, two leaves) with T0 idle for N=2. Oracle: the outer wait returns and the pool can be destroyed - a deadlock or livelock verdict, or 3 s of virtual time (30 backstop periods) without an end, is the violation; coverage guard: the state "every worker is inside an inner wait" is reached, also with a non-empty steal ring.',
+    level_text='Programs from the grammar outer set in {TaskSet, ConcurrentTaskSet heavy, ConcurrentTaskSet lightweight} x outer tasks each creating one inner construct from {TaskSet, ConcurrentTaskSet heavy/lightweight, async futures, waiting parallel_for, scheduleBulk+wait} with 1-2 leaves; plus a ConcurrentTaskSet (heavy = leaves placed in the steal ring of a claimed sleeper, or lightweight) filled by T0 while every worker is parked and waited for from inside a task of an outer set of each kind; and waiting on it, outer and/or inner submissions optionally forced to the queue, T0 waiting on the outer set (a helper) or idle until the outer tasks ended (the pool on its own); pools of 1 and 2 workers with N and N+1 outer tasks (plus a zero-thread pool); every interleaving with <=1 deviation, futex waiter picks free, backstop timeouts allowed. Quick: N=1 every single kind x 12 (outer kind, forcing, T0 role) variants, every pair containing a heavy set or a future; N=2 three shapes (time-boxed). Thorough: the whole grammar for N=1 with 1-2 outer tasks, bound 2 on the smallest N=1 shapes, all pairs over {T,C,L,F} with T0 waiting and idle, and ten further shapes (three outer tasks, parallel_for / bulk inners, forced inners, two leaves) with T0 idle for N=2. Oracle: the outer wait returns and the pool can be destroyed - a deadlock or livelock verdict, or 3 s of virtual time (30 backstop periods) without an end, is the violation; coverage guard: the state "every worker is inside an inner wait" is reached, also with a non-empty steal ring.',
     level_note='SC interleavings; nesting depth 2 only; timeouts are allowed to fire (the statement is about termination, not latency); runs that hit their time budget are reported as not exhaustive; a TSan and an ASan leg re-run two small shapes.',
     design_ref='DESIGN.md section 4, C06', assumptions=MC_ASSUME, rule=RULE,
-    guards=[need_cover('all_workers_in_wait', 'steal_ring_nonempty_at_wait', 't0_in_inner_wait', 't0_idle', 'inner_T', 'inner_C', 'inner_L', 'inner_F', 'inner_P', 'inner_B'),
+    guards=[need_cover('pre_filled_inner_set', 'all_workers_in_wait', 'steal_ring_nonempty_at_wait', 't0_in_inner_wait', 't0_idle', 'inner_T', 'inner_C', 'inner_L', 'inner_F', 'inner_P', 'inner_B'),
             need_outcomes(20)])
 
 
